@@ -26,6 +26,20 @@ CHECKS = {
     ),
 }
 
+CHECKS["C09"] = dict(
+    category="proof",
+    text="Formula AST with n-ary conjunction/disjunction and the rewrites __neg__, __and__, __or__, __eq__, convert_to_nnf, convert_to_dnf, "
+    "split_conjunction/disjunction are transcribed as total Lean functions; theorems over an ARBITRARY interpretation of atoms and arbitrary "
+    "(possibly empty) quantifier domains: sat_negF, sat_nnf, sat_dnf, sat_andF, sat_orF, sat_feq, sat_split*, and totality (negF_total, "
+    "nnf_total, dnf_total: no raise on well-formed NNF input of any arity). Tie: generated ASTs are built as real isla Formula objects and every "
+    "rewrite result is compared with the model's (flattened/sorted canonical form); on disagreement a semantic search under sampled finite "
+    "interpretations looks for a verdict difference.",
+    design_ref="DESIGN.md section 7 C09",
+    note="SMT atoms opaque: assumes z3_push_in_negations(s, True) denotes not-s (sampled against Z3 each run). "
+    "ensure_unique_bound_variables (renaming) has no theorem yet (partial). Hash/equality inconsistencies of Python objects are not modelled.",
+    technique="Lean 4 theorems (Sat-preservation for all interpretations, totality) + differential correspondence on generated formula ASTs",
+)
+
 NOT_APPLICABLE = {
     "C22": "reproducibility across fresh processes depends on hash randomisation, Z3 seeds/timeouts and wall-clock time; a functional Lean model would prove determinism vacuously and no executable model can exhibit the failure (DESIGN.md section 8)",
 }
